@@ -15,6 +15,7 @@ import DeapModel.Lemmas.C20Front
 import DeapModel.Lemmas.C20Binary
 import DeapModel.Lemmas.C20Tools
 import DeapModel.Lemmas.C20MP
+import DeapModel.Lemmas.C20MPTotal
 import DeapModel.Lemmas.C20Misc
 import Mathlib.Analysis.SpecialFunctions.Trigonometric.Basic
 import Mathlib.Analysis.SpecialFunctions.Pow.Real
@@ -821,5 +822,296 @@ example : (changeTimes cfgEx 1 [⟨.cone, [], 50, 5, []⟩]
   simp only [changeTimes, changePeaks, changeNumber, cfgEx, popRandom, half]
   real_bridge
   norm_num [imin, addPeaks, popMany, popUniform, popRandom, changeAll, changePeak, popGauss, reflect, shiftScale]
+
+/-! ## 8. Further characterisations: global minima, published forms, ZDT domain facts, DTLZ7 -/
+
+/-- 0 is the global minimum value of `rastrigin_skew` -/
+theorem rastriginSkew_nonneg (x : List ℝ) : 0 ≤ rastriginSkew x := by
+  simp only [rastriginSkew]
+  real_bridge
+  have := sum_map_ge x (fun v => (if ((0:ℕ):ℝ) < v then ((10:ℕ):ℝ) * v else v) ^ 2 -
+      ((10:ℕ):ℝ) * Real.cos (((2:ℕ):ℝ) * Real.pi * (if ((0:ℕ):ℝ) < v then ((10:ℕ):ℝ) * v else v))) (-10) (by
+    intro p _
+    have := Real.cos_le_one (((2:ℕ):ℝ) * Real.pi * (if ((0:ℕ):ℝ) < p then ((10:ℕ):ℝ) * p else p))
+    have := sq_nonneg (if ((0:ℕ):ℝ) < p then ((10:ℕ):ℝ) * p else p)
+    push_cast at *; linarith)
+  push_cast at *
+  linarith
+
+/-- 0 is the global minimum value of `rastrigin_scaled` (for every dimension the code accepts) -/
+theorem rastriginScaled_nonneg (x : List ℝ) (h : x.length ≠ 1) :
+    ∃ v, rastriginScaled x = some v ∧ 0 ≤ v := by
+  simp only [rastriginScaled, h, if_false]
+  refine ⟨_, rfl, ?_⟩
+  real_bridge
+  have e : ((10 * x.length : ℕ) : ℝ) = -(-10 * ((enumFrom 0 x).length : ℝ)) := by
+    rw [enumFrom_length]; push_cast; ring
+  rw [e]
+  have key : ∀ (l : List (ℕ × ℝ)) (F : ℕ × ℝ → ℝ), (∀ p ∈ l, (-10 : ℝ) ≤ F p) →
+      0 ≤ -(-10 * (l.length : ℝ)) + (l.map F).sum := by
+    intro l F hF; have := sum_map_ge l F (-10) hF; linarith
+  apply key
+  intro p _
+  exact sq_sub_ten_cos _ _
+
+/-- the published Ackley function -/
+noncomputable def ackleySpec (x : List ℝ) : ℝ :=
+  20 - 20 * Real.exp (-0.2 * Real.sqrt (1 / (x.length : ℝ) * (x.map (· ^ 2)).sum)) + Real.exp 1
+    - Real.exp (1 / (x.length : ℝ) * (x.map fun v => Real.cos (2 * Real.pi * v)).sum)
+
+theorem ackley_eq (x0 : ℝ) (t : List ℝ) : ackley (x0 :: t) = some (ackleySpec (x0 :: t)) := by
+  simp only [ackley, ackleySpec, List.isEmpty_cons, Bool.false_eq_true, if_false]
+  real_bridge; norm_num
+
+/-- 0 is the global minimum value of `ackley`: 20(1 − e^{−0.2√(mean x²)}) ≥ 0 and e − e^{mean cos} ≥ 0. -/
+theorem ackley_nonneg (x0 : ℝ) (t : List ℝ) : ∃ v, ackley (x0 :: t) = some v ∧ 0 ≤ v := by
+  refine ⟨_, ackley_eq x0 t, ?_⟩
+  unfold ackleySpec
+  set x := x0 :: t with hx
+  have hN : (0 : ℝ) < (x.length : ℝ) := by rw [hx]; simp; positivity
+  have h1 : Real.exp (-0.2 * Real.sqrt (1 / (x.length : ℝ) * (x.map (· ^ 2)).sum)) ≤ 1 := by
+    rw [Real.exp_le_one_iff]
+    have := Real.sqrt_nonneg (1 / (x.length : ℝ) * (x.map (· ^ 2)).sum)
+    nlinarith
+  have h2 : Real.exp (1 / (x.length : ℝ) * (x.map fun v => Real.cos (2 * Real.pi * v)).sum) ≤ Real.exp 1 := by
+    apply Real.exp_le_exp.2
+    have hs := sum_map_le' x (fun v => Real.cos (2 * Real.pi * v)) 1 (fun p _ => Real.cos_le_one _)
+    rw [div_mul_eq_mul_div, one_mul, div_le_one hN]
+    linarith
+  linarith
+
+/-! ### published forms of the two-objective problems -/
+
+theorem kursawe_eq (x : List ℝ) :
+    kursawe x = [((adjacent x).map fun p => -10 * Real.exp (-0.2 * Real.sqrt (p.1 ^ 2 + p.2 ^ 2))).sum,
+                 (x.map fun v => |v| ^ (0.8 : ℝ) + 5 * Real.sin (v ^ 3)).sum] := by
+  simp only [kursawe]; real_bridge
+  congr 2
+  · congr 1; funext p; norm_num; ring_nf
+  · congr 2; funext v; norm_num; ring_nf
+
+theorem fonseca_eq (x : List ℝ) :
+    fonseca x = [1 - Real.exp (-((x.take 3).map fun v => (v - 1 / Real.sqrt 3) ^ 2).sum),
+                 1 - Real.exp (-((x.take 3).map fun v => (v + 1 / Real.sqrt 3) ^ 2).sum)] := by
+  simp only [fonseca]; real_bridge; norm_num
+
+theorem poloni_eq (x1 x2 : ℝ) (t : List ℝ) :
+    poloni (x1 :: x2 :: t) =
+      (let A1 := 0.5 * Real.sin 1 - 2 * Real.cos 1 + Real.sin 2 - 1.5 * Real.cos 2
+       let A2 := 1.5 * Real.sin 1 - Real.cos 1 + 2 * Real.sin 2 - 0.5 * Real.cos 2
+       let B1 := 0.5 * Real.sin x1 - 2 * Real.cos x1 + Real.sin x2 - 1.5 * Real.cos x2
+       let B2 := 1.5 * Real.sin x1 - Real.cos x1 + 2 * Real.sin x2 - 0.5 * Real.cos x2
+       some [1 + (A1 - B1) ^ 2 + (A2 - B2) ^ 2, (x1 + 3) ^ 2 + (x2 + 1) ^ 2]) := by
+  simp only [poloni, poloniA1, poloniA2]; real_bridge; norm_num
+
+theorem dent_eq (lam x1 x2 : ℝ) (t : List ℝ) :
+    dent lam (x1 :: x2 :: t) =
+      (let d := lam * Real.exp (-(x1 - x2) ^ 2)
+       some [0.5 * (Real.sqrt (1 + (x1 + x2) ^ 2) + Real.sqrt (1 + (x1 - x2) ^ 2) + x1 - x2) + d,
+             0.5 * (Real.sqrt (1 + (x1 + x2) ^ 2) + Real.sqrt (1 + (x1 - x2) ^ 2) - x1 + x2) + d]) := by
+  simp only [dent]; real_bridge; norm_num
+
+/-! ### ZDT on its domain -/
+
+/-- ZDT1–3: g ≥ 1 when the distance variables are non-negative (domain [0,1]) -/
+theorem zdt_g_ge_one (x0 x1 : ℝ) (t : List ℝ) (h : ∀ v ∈ x1 :: t, 0 ≤ v) : 1 ≤ zdtGSpec (x0 :: x1 :: t) := by
+  simp only [zdtGSpec, List.tail_cons, List.length_cons]
+  have hs := sum_nonneg_of_mem (x1 :: t) h
+  have e : ((t.length + 1 + 1 : ℕ) : ℝ) - 1 = (t.length : ℝ) + 1 := by push_cast; ring
+  rw [e]
+  have : (0:ℝ) < (t.length : ℝ) + 1 := by positivity
+  have : 0 ≤ 9 / ((t.length : ℝ) + 1) * (x1 :: t).sum := by positivity
+  linarith
+
+example : ∀ v ∈ [(0.5 : ℝ), 1, 0], 0 ≤ v := by norm_num
+
+/-- ZDT4: g ≥ 1 for every input -/
+theorem zdt4_g_ge_one (x0 : ℝ) (t : List ℝ) : 1 ≤ zdt4GSpec (x0 :: t) := by
+  simp only [zdt4GSpec, List.tail_cons, List.length_cons]
+  have := sum_map_ge t (fun v => v ^ 2 - 10 * Real.cos (4 * Real.pi * v)) (-10) (fun p _ => by
+    have := Real.cos_le_one (4 * Real.pi * p); have := sq_nonneg p; linarith)
+  push_cast; linarith
+
+/-- ZDT6: g ≥ 1 when the distance variables are non-negative -/
+theorem zdt6_g_ge_one (x0 x1 : ℝ) (t : List ℝ) (h : ∀ v ∈ x1 :: t, 0 ≤ v) : 1 ≤ zdt6GSpec (x0 :: x1 :: t) := by
+  simp only [zdt6GSpec, List.tail_cons, List.length_cons]
+  have hs := sum_nonneg_of_mem (x1 :: t) h
+  have e : ((t.length + 1 + 1 : ℕ) : ℝ) - 1 = (t.length : ℝ) + 1 := by push_cast; ring
+  rw [e]
+  have : (0:ℝ) < (t.length : ℝ) + 1 := by positivity
+  have : 0 ≤ (x1 :: t).sum / ((t.length : ℝ) + 1) := by positivity
+  have := Real.rpow_nonneg this (0.25 : ℝ)
+  linarith
+
+/-- the ZDT1 Pareto front: with all distance variables zero, g = 1 and f₂ = 1 − √f₁ -/
+theorem zdt1_front (x0 : ℝ) (n : Nat) :
+    zdtGSpec (x0 :: List.replicate (n + 1) 0) = 1 ∧
+    zdt1 (x0 :: List.replicate (n + 1) 0) = some [x0, 1 - Real.sqrt x0] := by
+  have hg : zdtGSpec (x0 :: List.replicate (n + 1) 0) = 1 := by
+    simp [zdtGSpec]
+  refine ⟨hg, ?_⟩
+  rw [List.replicate_succ, zdt1_f2, ← List.replicate_succ, hg]; simp
+
+/-- conversely on the domain, g = 1 forces f₂ = 1 − √f₁ -/
+theorem zdt1_front_of_g (x0 x1 : ℝ) (t : List ℝ) (hg : zdtGSpec (x0 :: x1 :: t) = 1) :
+    zdt1 (x0 :: x1 :: t) = some [x0, 1 - Real.sqrt x0] := by
+  rw [zdt1_f2, hg]; simp
+
+example : zdtGSpec [(0.3 : ℝ), 0, 0] = 1 := by simp [zdtGSpec]
+
+/-! ### DTLZ7 -/
+
+/-- DTLZ7: the first M−1 objectives are the position variables, the last is (1+g)·h with
+g = 1 + 9/|x_m|·Σx_m and h = M − Σ fᵢ/(1+g)·(1 + sin(3πfᵢ)); needs 1 ≤ M ≤ n. -/
+theorem dtlz7_structure (x : List ℝ) (M : Nat) (hM : 1 ≤ M) (hn : M ≤ x.length) :
+    let g := 1 + 9 / ((x.drop (M - 1)).length : ℝ) * (x.drop (M - 1)).sum
+    let h := (M : ℝ) - ((x.take (M - 1)).map fun f => f / (1 + g) * (1 + Real.sin (3 * Real.pi * f))).sum
+    dtlz7 x M = some (x.take (M - 1) ++ [(1 + g) * h]) ∧ (x.take (M - 1) ++ [(1 + g) * h]).length = M := by
+  intro g h
+  constructor
+  · simp only [dtlz7, hM, hn, and_self, if_true, g, h]; real_bridge; norm_num
+  · simp; omega
+
+example : (1 : Nat) ≤ 3 ∧ 3 ≤ [(0.1 : ℝ), 0.2, 0.3, 0.4].length := by simp
+
+/-! ## 9. Moving peaks: totality on well-typed tapes, counted evaluations (any scalar type) -/
+
+section MPTotal
+variable {α : Type} [RealLike α]
+
+/-- **`changePeaks` is total on well-typed tapes.**  If every peak has `dim` coordinates (the class
+invariant) and the tape answers the request sequence `changeReqs` — right kind of draw at every
+position, `randrange`/`choice` indices in range, at least `(changeReqs …).length` draws — the call
+succeeds, consumes exactly that many draws, leaves `newLen` peaks and keeps the invariant.  With limits
+`[mn, mx]` and the count inside them the sequence is at most `2 + (mx-mn)(2·dim+3) + mx(dim+2)` long. -/
+theorem changePeaks_total (cfg : Config α) (peaks : List (Peak α)) (t : Tape α)
+    (hd : DimOK cfg.dim peaks) (h : Serves (changeReqs cfg peaks.length t) t) :
+    (∃ p' t', changePeaks cfg peaks t = some (p', t') ∧ p'.length = newLen cfg peaks.length t ∧
+      DimOK cfg.dim p' ∧ t' = t.drop (changeReqs cfg peaks.length t).length) ∧
+    (∀ mn mx, cfg.limits = some (mn, mx) → mn ≤ (peaks.length : Int) → (peaks.length : Int) ≤ mx →
+      (changeReqs cfg peaks.length t).length ≤ 2 + (mx - mn).toNat * (2 * cfg.dim + 3) + mx.toNat * (cfg.dim + 2)) ∧
+    (cfg.limits = none → (changeReqs cfg peaks.length t).length = peaks.length * (cfg.dim + 2)) := by
+  refine ⟨?_, fun mn mx hl h1 h2 => changeReqs_length_le cfg _ t mn mx hl h1 h2,
+    fun hl => changeReqs_length_nolimits cfg _ t hl⟩
+  obtain ⟨p', t', e1, e2, e3, e4, _⟩ := changePeaks_total' cfg [] peaks t hd (by simpa using h)
+  exact ⟨p', t', e1, e2, e3, e4⟩
+
+/-- the hypotheses are met: no limits, one 1-D peak, the tape `random, gauss, gauss` -/
+example : DimOK 1 [(⟨.cone, [5], 50, 1, [0]⟩ : Peak ℝ)] ∧
+    ∀ cfg : Config ℝ, cfg.dim = 1 → cfg.limits = none →
+      Serves (changeReqs cfg 1 [Draw.random 0, .gauss 0, .gauss 0]) [Draw.random (0 : ℝ), .gauss 0, .gauss 0] := by
+  constructor
+  · intro p hp; simp at hp; subst hp; simp
+  · intro cfg h1 h2
+    simp [changeReqs, numberReqs, newLen, plan, h2, allReqs, peakReqs, h1, Serves, kindOK]
+
+/-- **Count invariant, unconditionally on well-typed tapes**: if the tape answers `k` successive calls
+(`ServesTimes`), all `k` changes succeed and the number of peaks stays inside the configured limits
+(resp. unchanged without limits). -/
+theorem mp_count_inv_total (cfg : Config α) (k : Nat) (peaks : List (Peak α)) (t : Tape α)
+    (hd : DimOK cfg.dim peaks) (h : ServesTimes cfg k peaks.length t) :
+    ∃ p' t', changeTimes cfg k peaks t = some (p', t') ∧
+      (cfg.limits = none → p'.length = peaks.length) ∧
+      (∀ mn mx, cfg.limits = some (mn, mx) → mn ≤ (peaks.length : Int) → (peaks.length : Int) ≤ mx →
+        mn ≤ (p'.length : Int) ∧ (p'.length : Int) ≤ mx) := by
+  obtain ⟨p', t', e, _⟩ := changeTimes_total cfg k peaks t hd h
+  refine ⟨p', t', e, ?_⟩
+  -- the count part is `mp_count_inv`, proved for every scalar type
+  clear hd h
+  induction k generalizing peaks t with
+  | zero =>
+    simp only [changeTimes, Option.some.injEq, Prod.mk.injEq] at e
+    rw [← e.1]; exact ⟨fun _ => rfl, fun _ _ _ h1 h2 => ⟨h1, h2⟩⟩
+  | succ j ih =>
+    simp only [changeTimes] at e
+    split at e
+    · simp at e
+    · next p1 t1 h1 =>
+      have hc := changePeaks_count _ _ _ _ _ h1
+      obtain ⟨i1, i2⟩ := ih _ _ e
+      constructor
+      · intro hl; rw [hl] at hc; rw [i1 hl]; exact hc
+      · intro mn mx hl a b
+        rw [hl] at hc
+        obtain ⟨c1, c2⟩ := hc a b
+        exact i2 mn mx hl c1 c2
+
+example : ∀ cfg : Config ℝ, cfg.limits = none → ServesTimes cfg 2 0 [] := by
+  intro cfg h
+  simp [ServesTimes, changeReqs, numberReqs, newLen, plan, h, allReqs, Serves]
+
+/-- **Counted evaluation**: the fitness is the `max` of the current peaks' values, `nevals` grows by
+exactly one, and `changePeaks` runs (on the current peaks, with the current tape) exactly when
+`period > 0 ∧ nevals % period = 0` for the incremented counter; otherwise peaks and tape are untouched. -/
+theorem mp_call_step (cfg : Config α) (period : Int) (basis : Option (List α → α)) (st : State α)
+    (x : List α) (t : Tape α) (v : α) (ch : Bool) (st' : State α) (t' : Tape α)
+    (h : evalCounted cfg period basis st x t = some (v, ch, st', t')) :
+    call st.peaks (basis.map fun b => b x) x = some v ∧
+    st'.nevals = st.nevals + 1 ∧
+    (ch = true ↔ (0 < period ∧ ((st.nevals + 1 : Nat) : Int) % period = 0)) ∧
+    (ch = true → changePeaks cfg st.peaks t = some (st'.peaks, t')) ∧
+    (ch = false → st'.peaks = st.peaks ∧ t' = t) := by
+  unfold evalCounted at h
+  split at h
+  · simp at h
+  · next v0 hv =>
+    by_cases hemp : st.peaks.isEmpty = true
+    · simp [hemp] at h
+    · simp only [hemp, Bool.false_eq_true, if_false] at h
+      by_cases htr : triggers period (st.nevals + 1) = true
+      · simp only [htr, if_true] at h
+        split at h
+        · simp at h
+        · next p1 t1 hc =>
+          simp only [Option.some.injEq, Prod.mk.injEq] at h
+          obtain ⟨rfl, rfl, rfl, rfl⟩ := h
+          refine ⟨hv, rfl, ?_, fun _ => hc, fun hf => by simp at hf⟩
+          simpa [triggers] using htr
+      · simp only [htr, Bool.false_eq_true, if_false] at h
+        simp only [Option.some.injEq, Prod.mk.injEq] at h
+        obtain ⟨rfl, rfl, rfl, rfl⟩ := h
+        refine ⟨hv, rfl, ?_, fun hf => by simp at hf, fun _ => ⟨rfl, rfl⟩⟩
+        simp only [triggers, decide_eq_true_eq] at htr
+        constructor
+        · intro hf; simp at hf
+        · intro hc; exact absurd hc htr
+
+/-- **Over any history of evaluations**: after `n` counted evaluations `nevals` has grown by `n`, and the
+`j`-th evaluation (0-based) triggered a change exactly when `period > 0 ∧ (nevals₀ + j + 1) % period = 0`. -/
+theorem mp_call_count (cfg : Config α) (period : Int) (basis : Option (List α → α)) (xs : List (List α))
+    (st : State α) (t : Tape α) (outs : List (α × Bool)) (st' : State α) (t' : Tape α)
+    (h : evalMany cfg period basis xs st t = some (outs, st', t')) :
+    st'.nevals = st.nevals + xs.length ∧ outs.length = xs.length ∧
+    ∀ j (hj : j < outs.length),
+      ((outs[j]).2 = true ↔ (0 < period ∧ ((st.nevals + j + 1 : Nat) : Int) % period = 0)) := by
+  induction xs generalizing st t outs with
+  | nil =>
+    simp only [evalMany, Option.some.injEq, Prod.mk.injEq] at h
+    obtain ⟨rfl, rfl, rfl⟩ := h
+    simp
+  | cons x rest ih =>
+    simp only [evalMany] at h
+    split at h
+    · simp at h
+    · next v ch st1 t1 h1 =>
+      split at h
+      · simp at h
+      · next o2 st2 t2 h2 =>
+        simp only [Option.some.injEq, Prod.mk.injEq] at h
+        obtain ⟨rfl, rfl, rfl⟩ := h
+        obtain ⟨_, a2, a3, _, _⟩ := mp_call_step _ _ _ _ _ _ _ _ _ _ h1
+        obtain ⟨b1, b2, b3⟩ := ih _ _ _ h2
+        refine ⟨by rw [b1, a2]; simp; omega, by simp [b2], ?_⟩
+        intro j hj
+        cases j with
+        | zero => simpa using a3
+        | succ i =>
+          have := b3 i (by simpa using hj)
+          simp only [List.getElem_cons_succ]
+          rw [this, a2]
+          have : st.nevals + 1 + i + 1 = st.nevals + (i + 1) + 1 := by omega
+          rw [this]
+
+end MPTotal
 
 end C20
